@@ -24,7 +24,7 @@ f("C08-F3", "Cypher relationship type alternatives [:R|S] match the first type o
   "crates/grafeo-engine/src/query/cypher_translator.rs:385 (rel.types.first())",
   {"graph": "(:P{uid:8})-[:S]->(:P{uid:11})", "query": "MATCH (n0)-[:R|S]->(n1) RETURN n0.uid AS c0", "languages": ["cypher"], "expected": "[[8]]", "observed": "[]"})
 f("C08-F4", "an undirected pattern -[]- returns a self-loop twice (listed under outgoing and again under incoming)",
-  "crates/grafeo-core/src/execution/operators/expand.rs (Direction::Both via store.edges_from)",
+  "crates/grafeo-core/src/graph/lpg/store.rs:2256-2281 (edges_from: Direction::Both chains the forward and the backward adjacency; a self-loop is in both), used by expand.rs and variable_length_expand.rs",
   {"graph": "(:P{uid:11}) with one self-loop", "query": "MATCH (n0)-[]-(n1) RETURN n0.uid AS c0", "languages": ["gql", "cypher", "gremlin: g.V().both().values('uid')"],
    "expected": "[[11]]", "observed": "[[11],[11]]"})
 f("C08-F5", "AND / OR yield unknown as soon as either operand is unknown (Kleene: false AND unknown = false, true OR unknown = true)",
@@ -58,7 +58,7 @@ f("C08-F11", "Cypher count(expr) counts rows whose expr is null (planned as coun
   "crates/grafeo-engine/src/query/cypher_translator.rs:738-770 (try_extract_aggregate keeps AggregateFunction::Count); aggregate.rs:903 (Count,false) updates unconditionally",
   {"graph": "(:Q{uid:1})", "query": "MATCH (n0) RETURN count(n0.f) AS c0", "languages": ["cypher"], "expected": "[[0]]", "observed": "[[1]]"})
 f("C08-F12", "a variable-length pattern *0..n never yields the zero-length binding",
-  "crates/grafeo-core/src/execution/operators/variable_length_expand.rs:236-262",
+  "crates/grafeo-core/src/execution/operators/variable_length_expand.rs:214-246 (process_input_row seeds the frontier with depth-1 neighbours; depth 0 is never emitted)",
   {"graph": "(:P{uid:3}) no edges", "query": "MATCH (n0)-[*0..1]->(n1) RETURN n0.uid AS c0", "languages": ["gql", "cypher"], "expected": "[[3]]", "observed": "[]"})
 f("C08-F13", "an unbounded variable-length pattern * is silently cut at min+10 hops",
   "crates/grafeo-engine/src/query/planner.rs:509 (expand.max_hops.unwrap_or(expand.min_hops + 10))",
@@ -70,7 +70,7 @@ f("C08-F15", "a range predicate directly over a node scan is served by find_node
   "crates/grafeo-engine/src/query/planner.rs:1194-1288 (try_plan_filter_with_range_index, used without any index); crates/grafeo-core/src/graph/lpg/store.rs:34-42 (compare_values_for_range)",
   {"graph": "(:P:T{uid:10,k:4.5})", "query": "MATCH (n0) WHERE n0.k > 1 RETURN n0.uid AS c0", "languages": ["gql", "cypher", "gremlin: g.V().has('k', gt(1))", "graphql"], "expected": "[[10]]", "observed": "[]"})
 f("C08-F16", "an edge variable that passes through ORDER BY / SKIP / LIMIT (GQL) or a WITH (Cypher) is re-typed as a node column: e.prop then reads the property of the node whose id equals the edge id",
-  "crates/grafeo-engine/src/query/planner.rs:1445-1448 (plan_sort pass-through columns typed LogicalType::Node), :1394-1408 (limit/skip schema Any), plan_project",
+  "crates/grafeo-engine/src/query/planner.rs:1445-1448 (plan_sort: pass-through columns typed LogicalType::Node), :1394-1408 (plan_limit/plan_skip: schema Any; limit.rs rebuilds the chunk it cuts with push_value), :867 (plan_project: a passed-through variable is typed Node)",
   {"graph": "(:Q{uid:27}) with self-loop {uid:1000}", "query": "MATCH (n0)-[e0]->(n1) RETURN e0.uid AS c0 ORDER BY e0.uid", "languages": ["gql", "cypher: MATCH (n0)-[e0]->(n1) WITH n0, n1, e0 ORDER BY e0.uid RETURN e0.uid AS c0"],
    "expected": "[[1000]]", "observed": "[[27]]"})
 f("C08-F17", "GQL front end rejects IS NULL / IS NOT NULL (Cypher answers the same text)",
@@ -80,7 +80,7 @@ f("C08-F18", "GQL front end rejects IN [list] (Cypher answers the same text)",
   "crates/grafeo-adapters/src/query/gql/parser.rs:1061 (parse_comparison_expression has no IN branch)",
   {"query": "MATCH (n0) WHERE n0.f IN [-1] RETURN n0.uid AS c0", "languages": ["gql"], "observed": "Query error: syntax error: Expected RETURN", "cross_language": "cypher answers"})
 f("C08-F19", "count(*) is a syntax error in GQL and Cypher (Gremlin count() answers)",
-  "crates/grafeo-adapters/src/query/gql/parser.rs:1303-1320, cypher/parser.rs:1078 (argument list parses an expression, '*' is not one)",
+  "crates/grafeo-adapters/src/query/gql/parser.rs:1303-1320 (function arguments are expressions, '*' is not one); cypher/parser.rs:955-1075 (same; the count(*) special case in parse_aggregate_function l.1089 is not reached)",
   {"query": "MATCH (n0) RETURN count(*) AS c0", "languages": ["gql", "cypher"], "observed": "Query error: syntax error: Expected expression", "cross_language": "gremlin g.V().count() answers"})
 f("C08-F20", "GQL front end rejects the type alternative [:R|S] (Cypher accepts it)",
   "crates/grafeo-adapters/src/query/gql/parser.rs:700-708 (types only as :A:B)",
@@ -106,10 +106,12 @@ f("C08-F25", "ValueVector::set_null allocates the validity bitmap at the first n
 f("C08-F26", "GQL: an unbounded variable-length pattern (*, *n..) gets max_hops = 1: `edge.max_hops.or(Some(1))` cannot tell 'no quantifier' from 'no upper bound'",
   "crates/grafeo-engine/src/query/gql_translator.rs:770",
   {"graph": "chain (12)-[:R]->(13)-[:R]->(14)", "query": "MATCH (n0)-[*]->(n1) RETURN n0.uid AS c0", "languages": ["gql"], "expected": "3 rows (12,12,13)", "observed": "2 rows (the 2-hop walk is missing); *2.. returns nothing"})
-f("C08-F27", "the planner's zone-map pre-check looks up the property name in the *node* zone map whatever the variable is: a predicate on an edge property whose key also exists on nodes is answered 'no match possible' and the whole result is empty",
-  "crates/grafeo-engine/src/query/planner.rs:915-920, 1046-1050 (check_zone_map_for_predicate -> store.node_property_might_match)",
-  {"graph": "(:P{uid:6})-[:R{uid:1001}]->(:T:P{uid:5})", "query": "MATCH (n0)-[e0]->(n1) WHERE e0.uid > 500 RETURN n0.uid AS c0", "languages": ["gql", "cypher"], "expected": "[[6]]", "observed": "[]",
-   "note": "random predicates on edges use keys that do not exist on nodes (w, t); this defect is pinned by directed cells"})
+f("C08-F27", "the planner's zone-map pre-check empties a filter wrongly: (a) it looks the property name up in the *node* zone map whatever the variable is, so a predicate on an edge property whose key also exists on nodes is judged against node values; (b) the zone map's min/max ignore values of another kind than the first one stored, so for a mixed-kind column `k <> 'b'` is pruned when min = max = 'b' although other values exist",
+  "crates/grafeo-engine/src/query/planner.rs:915-920, 1046-1050 (check_zone_map_for_predicate -> store.node_property_might_match); crates/grafeo-core/src/graph/lpg/property.rs:634-661 (update_zone_map_on_insert skips incomparable values), :1001-1018 (Ne pruning)",
+  {"graph": "(a) (:P{uid:1})-[:R{uid:1000}]->(:P{uid:2});  (b) (:Q{uid:1,k:'b'}), (:P:T{uid:2,k:true})",
+   "query": "(a) MATCH (n0)-[e0]->(n1) WHERE e0.uid > 500 RETURN n0.uid AS c0;  (b) MATCH (n0) WHERE n0.k <> 'b' RETURN n0.uid AS c0", "languages": ["gql", "cypher", "gremlin: g.V().has('k', neq('b')).values('uid')"],
+   "expected": "(a) [[1]]  (b) [[2]]", "observed": "(a) []  (b) []",
+   "note": "random predicates on edges use keys that do not exist on nodes (w, t); (a) is pinned by a directed cell"})
 
 extra = json.load(open(f"{ROOT}/scripts/c08_extra_signatures.json")) if os.path.exists(f"{ROOT}/scripts/c08_extra_signatures.json") else {}
 for e in F:
